@@ -10,7 +10,8 @@ general definitions), for every tuple of classes.  A second update without
 change must leave the chains unchanged.
 
 Definitions are written in one of several styles (the ways the API offers to
-obtain next): define_method, define_method in a method container, and - with
+obtain next): define_method, define_method in a method container,
+define_method_inline, a method declared with declare_static_method, and - with
 the method declared through the method<> template - add_definition of a
 container that inherits use_next<>, that declares its own static next, that
 inherits method::next<>, or add_function with an explicit pointer to the next
@@ -44,7 +45,8 @@ def gen_case(rng):
             "container": rng.random() < 0.4,
             "per_class_reg": rng.random() < 0.3,
             "reg_order": rng.sample(range(n), n),
-            "style": rng.choice(["macro", "macro", "macro_inline", "use_next",
+            "style": rng.choice(["macro", "macro", "macro_inline",
+                                 "static_method", "use_next",
                                  "next_member",
                                  "next_alias", "add_function",
                                  "add_function_twice"]),
@@ -148,6 +150,13 @@ def emit(case):
     if style in ("macro", "macro_inline"):
         out.append("declare_method(void, walk, (%s), pol);" %
                    ", ".join(params))
+    elif style == "static_method":
+        # a method declared as a static member (no ADL), defined with the
+        # qualified name
+        out.append("struct host { declare_static_method(void, walk, (%s), "
+                   "pol); };" % ", ".join(params))
+        out.append("template<class... T> void walk(T&&... a) { "
+                   "host::walk(std::forward<T>(a)...); }")
     else:
         out.append("struct walk_key;")
         out.append("using walk_m = method<walk_key, void(%s), pol>;" %
@@ -174,6 +183,9 @@ def emit(case):
                 sig, body))
         elif style == "macro":
             out.append("define_method(void, walk, (%s)) %s" % (sig, body))
+        elif style == "static_method":
+            out.append("define_method(void, host::walk, (%s)) %s" % (
+                sig, body))
         elif style == "use_next":
             out.append("struct def%d : walk_m::use_next<def%d> { static void "
                        "fn(%s) %s };" % (d, d, sig, body))
